@@ -26,6 +26,7 @@ def check(sc, ctx):
         ctx.excluded += 1
         return
     f = sc["f"]
+    routing.side_labels(sc, ev, ctx)
     ctx.label("demux:" + str(f.get("demux")))
     ctx.label("paired" if sc["paired"] else "single")
     if f.get("discard_untrimmed"):
